@@ -64,6 +64,11 @@ def ReadFault.tag : ReadFault → String
   | .reader _ => "reader"
   | .other e => e.tag
 
+/-- how a fault of the matrix decoder (or of `extractPureBits`) surfaces from `Reader.Decode`: unchanged -/
+def liftRes {α : Type} : Res α → Except ReadFault α
+  | .ok a => .ok a
+  | .error e => .error (.other e)
+
 /-- `DataMatrixReader.Decode(image, {PURE_BARCODE: …})` on the black matrix the bitmap yields; `decode` is
     `decoder.Decode(bits)` -/
 def dmRead {α : Type} (black : Res Img) (decode : Bits → Res α) : Except ReadFault α :=
